@@ -90,12 +90,22 @@ def to_netlist(net):
     return {"ref": net.node_zero_label, "branches": out}
 
 
-def component(c):
+def component(c, numbers="float"):
     """reference component description -> library Component"""
     from CircuitCalculator.Circuit import components as ccp
     from .ref import circuit as rc
     kind, cid, nodes, p = c
-    fl = rc.fl
+    # numbers: "float" (Python floats), "numpy" (np.float64 / np.complex128 scalars), "int" (Python ints where the value is integral)
+    if numbers == "numpy":
+        import numpy as np
+        fl = lambda x: np.float64(rc.fl(x))
+        complex_ = lambda a, b: np.complex128(complex(a, b))
+    elif numbers == "int":
+        fl = lambda x: (int(rc.fl(x)) if float(rc.fl(x)).is_integer() else rc.fl(x))
+        complex_ = complex
+    else:
+        fl = rc.fl
+        complex_ = complex
     nodes = tuple(nodes)
     if kind == "ground":
         return ccp.ground(id=cid, nodes=nodes)
@@ -104,9 +114,9 @@ def component(c):
     if kind == "conductance":
         return ccp.conductance(cid, nodes, G=fl(p["G"]))
     if kind == "impedance":
-        return ccp.impedance(cid, nodes, Z=complex(fl(p["Z"][0]), fl(p["Z"][1])))
+        return ccp.impedance(cid, nodes, Z=complex_(fl(p["Z"][0]), fl(p["Z"][1])))
     if kind == "admittance":
-        return ccp.admittance(cid, nodes, Y=complex(fl(p["Y"][0]), fl(p["Y"][1])))
+        return ccp.admittance(cid, nodes, Y=complex_(fl(p["Y"][0]), fl(p["Y"][1])))
     if kind == "capacitor":
         return ccp.capacitor(cid, nodes, C=fl(p["C"]))
     if kind == "inductance":
@@ -123,7 +133,7 @@ def component(c):
         return ccp.ac_voltage_source(cid, nodes, V=fl(p["V"]), R=fl(p.get("R", 0)), w=fl(p.get("w", 0)), phi=rc.phase_float(p.get("phi", "0")))
     if kind == "complex_voltage_source":
         z = p.get("Z", [0, 0])
-        return ccp.complex_voltage_source(cid, nodes, V=complex(fl(p["V"][0]), fl(p["V"][1])), Z=complex(fl(z[0]), fl(z[1])))
+        return ccp.complex_voltage_source(cid, nodes, V=complex_(fl(p["V"][0]), fl(p["V"][1])), Z=complex_(fl(z[0]), fl(z[1])))
     if kind == "periodic_voltage_source":
         return ccp.periodic_voltage_source(cid, nodes, wavetype=p["wavetype"], V=fl(p["V"]), w=fl(p["w"]), phi=rc.phase_float(p.get("phi", "0")), R=fl(p.get("R", 0)))
     if kind == "dc_current_source":
@@ -132,15 +142,15 @@ def component(c):
         return ccp.ac_current_source(cid, nodes, I=fl(p["I"]), G=fl(p.get("G", 0)), w=fl(p.get("w", 0)), phi=rc.phase_float(p.get("phi", "0")))
     if kind == "complex_current_source":
         y = p.get("Y", [0, 0])
-        return ccp.complex_current_source(cid, nodes, I=complex(fl(p["I"][0]), fl(p["I"][1])), Y=complex(fl(y[0]), fl(y[1])))
+        return ccp.complex_current_source(cid, nodes, I=complex_(fl(p["I"][0]), fl(p["I"][1])), Y=complex_(fl(y[0]), fl(y[1])))
     if kind == "periodic_current_source":
         return ccp.periodic_current_source(cid, nodes, wavetype=p["wavetype"], I=fl(p["I"]), w=fl(p["w"]), phi=rc.phase_float(p.get("phi", "0")), G=fl(p.get("G", 0)))
     raise ValueError(kind)
 
 
-def circuit(desc):
+def circuit(desc, numbers="float"):
     from CircuitCalculator.Circuit.circuit import Circuit
-    return Circuit([component(c) for c in desc["components"]])
+    return Circuit([component(c, numbers) for c in desc["components"]])
 
 
 # ------------------------------------------------------------------ schematic drawings
